@@ -654,11 +654,51 @@ def worker(rec, shard, nshards, thorough, seed):
                 rec.violation("C07:issues-depend-on-letter-case-of-Delay", first=first, second=second, answers=answers)
 
 
+def file_sequence_check(ctx):
+    """E2: sequences of two and three files through one SpreadsheetValidator object: every file gets the issues a fresh
+    validator gives it (nothing of an earlier file - open processes, failed rows, masks - carries over)."""
+    from hed.models.tabular_input import TabularInput
+    from hed.validator.spreadsheet_validator import SpreadsheetValidator
+    env = Env()
+    rec = ctx.rec
+    files = {
+        "opens-A": "onset\tHED\n1\t(Def/A, Onset)\n2\tRed\n",
+        "closes-A": "onset\tHED\n1\tRed\n2\t(Def/A, Offset)\n",
+        "failing-row": "onset\tHED\n1\tZzqnonsense, (Def/A, Onset)\n2\tBlue, Blue\n",
+        "no-onsets": "HED\nRed\n(Def/A, Onset)\n",
+        "na-onset": "onset\tHED\nn/a\tBlue, Blue\n2\t(Def/A, Inset)\n",
+    }
+
+    def verdict(v, name):
+        issues = v.validate(TabularInput(io.StringIO(files[name]), name=name), def_dicts=env.dd, name=name)
+        return sorted((i["code"], i.get("ec_row"), i.get("ec_column")) for i in issues)
+    fresh = {n: verdict(SpreadsheetValidator(env.schema), n) for n in files}
+    for d in (2, 3):
+        for seq in itertools.product(files, repeat=d):
+            rec.n("evaluations")
+            rec.n("transitions", d)
+            rec.n("distinct_nontrivial")
+            rec.state(("file-sequence", tuple(sorted(set(seq)))))
+            v = SpreadsheetValidator(env.schema)
+            for step, n in enumerate(seq):
+                try:
+                    got = verdict(v, n)
+                except Exception as e:
+                    rec.violation(f"C07:raises:{type(e).__name__}:file-sequence", sequence=list(seq), step=step, error=repr(e)[:200])
+                    break
+                if got != fresh[n]:
+                    rec.violation("C07:file-sequence:issues-depend-on-files-validated-before", sequence=list(seq), step=step,
+                                  fresh=fresh[n], got=got)
+                    break
+    rec.outcome("file-sequences")
+
+
 def run(ctx):
     ctx.rec.notes["bounds"] = {"kinds": KINDS, "unit_spellings": UNIT_SPELLINGS,
                                "families": "F1 1x3 all kinds; F2 2x1 all kinds, 3x1 (8 kinds quick / all thorough); "
                                            "F3 2x2 (7 kinds quick / all thorough); all row permutations with distinct onsets"}
     ctx.parallel(worker, ctx.thorough, ctx.seed)
+    file_sequence_check(ctx)
     ctx.rec.counts["states"] = len(ctx.rec.states)
 
 
